@@ -95,7 +95,7 @@ def run_case(item):
 def plan(tier):
     grid = (0.0, 0.25, BT + EPS) if tier == 'quick' else (0.0, 0.25, BT - EPS, BT + EPS, 2.5)
     shapes = [(2, 1), (3, 1), (3, 2)] if tier == 'quick' else [(2, 1), (3, 1), (3, 2), (4, 1)]
-    fresh = (('call', 0), ('call', 1), ('call', 7))
+    fresh = (('call', 0), ('call', 1), ('call', 2), ('call', 7))
     scripts = [{}, {'0': 'exc'}, {'1': 'exc'}]
     for n_calls, n_cancels in shapes:
         cfgs = [{'mbs': m, 'mcb': c, 'R': r, 'order': o, 'item_dur': d}
@@ -105,8 +105,11 @@ def plan(tier):
         g = grid if (n_calls + n_cancels) <= 4 or tier != 'quick' else (0.0, 0.25, BT + EPS)
         if tier != 'quick' and n_calls + n_cancels >= 5:
             g = (0.0, 0.25, BT + EPS)
-        for pat in event_patterns(n_calls, n_cancels):
-            gapsets = list(itertools.product(g, repeat=len(pat) - 1))
+        for pat in event_patterns(n_calls, n_cancels, syms=3 if n_calls == 3 and n_cancels == 1 else 2):
+            # a cancel may also land 1 or 2 loop iterations after the previous event (same instant)
+            choices = [tuple(g) + ((('it', 1), ('it', 2)) if op[0] == 'cancel' and len(pat) <= 4 else ())
+                       for op in pat[1:]]
+            gapsets = list(itertools.product(*choices))
             step = max(1, len(gapsets) // 4)
             for i in range(0, len(gapsets), step):
                 yield (pat, gapsets[i:i + step], cfgs, scripts, fresh)
